@@ -130,7 +130,7 @@ static int64_t eval_rval(Node *node, char ***label);
 static bool is_const_expr(Node *node);
 static Node *assign(Token **rest, Token *tok);
 static Node *logor(Token **rest, Token *tok);
-static double eval_double(Node *node);
+static long double eval_double(Node *node);
 static Node *conditional(Token **rest, Token *tok);
 static Node *logand(Token **rest, Token *tok);
 static Node *bitor(Token **rest, Token *tok);
@@ -1482,6 +1482,13 @@ write_gvar_data(Relocation *cur, Initializer *init, Type *ty, char *buf, int off
     return cur;
   }
 
+  if (ty->kind == TY_LDOUBLE) {
+    // Only the 10 value bytes are written; the padding stays zero.
+    long double val = eval_double(init->expr);
+    memcpy(buf + offset, &val, 10);
+    return cur;
+  }
+
   if (ty->kind == TY_BOOL) {
     // Conversion to _Bool is a comparison with zero, not a truncation.
     add_type(init->expr);
@@ -2064,24 +2071,31 @@ int64_t const_expr(Token **rest, Token *tok) {
   return eval(node);
 }
 
-static double eval_double(Node *node) {
-  add_type(node);
-
-  if (is_integer(node->ty)) {
-    if (node->ty->is_unsigned)
-      return (unsigned long)eval(node);
-    return eval(node);
-  }
+// Evaluate a floating constant expression. Every operation is carried
+// out in the type of its node, as the generated code would do it
+// (FLT_EVAL_METHOD is 0), so that a static initializer gets the bits a
+// run-time evaluation produces.
+static long double eval_double2(Node *node) {
+  TypeKind k = node->ty->kind;
 
   switch (node->kind) {
   case ND_ADD:
-    return eval_double(node->lhs) + eval_double(node->rhs);
   case ND_SUB:
-    return eval_double(node->lhs) - eval_double(node->rhs);
   case ND_MUL:
-    return eval_double(node->lhs) * eval_double(node->rhs);
-  case ND_DIV:
-    return eval_double(node->lhs) / eval_double(node->rhs);
+  case ND_DIV: {
+    long double l = eval_double(node->lhs);
+    long double r = eval_double(node->rhs);
+    switch (node->kind) {
+    case ND_ADD:
+      return k == TY_FLOAT ? (float)l + (float)r : k == TY_DOUBLE ? (double)l + (double)r : l + r;
+    case ND_SUB:
+      return k == TY_FLOAT ? (float)l - (float)r : k == TY_DOUBLE ? (double)l - (double)r : l - r;
+    case ND_MUL:
+      return k == TY_FLOAT ? (float)l * (float)r : k == TY_DOUBLE ? (double)l * (double)r : l * r;
+    default:
+      return k == TY_FLOAT ? (float)l / (float)r : k == TY_DOUBLE ? (double)l / (double)r : l / r;
+    }
+  }
   case ND_NEG:
     return -eval_double(node->lhs);
   case ND_COND:
@@ -2091,12 +2105,31 @@ static double eval_double(Node *node) {
   case ND_CAST:
     if (is_flonum(node->lhs->ty))
       return eval_double(node->lhs);
+    if (node->lhs->ty->is_unsigned)
+      return (unsigned long)eval(node->lhs);
     return eval(node->lhs);
   case ND_NUM:
     return node->fval;
   }
 
   error_tok(node->tok, "not a compile-time constant");
+}
+
+static long double eval_double(Node *node) {
+  add_type(node);
+
+  if (is_integer(node->ty)) {
+    if (node->ty->is_unsigned)
+      return (unsigned long)eval(node);
+    return eval(node);
+  }
+
+  long double val = eval_double2(node);
+  if (node->ty->kind == TY_FLOAT)
+    return (float)val;
+  if (node->ty->kind == TY_DOUBLE)
+    return (double)val;
+  return val;
 }
 
 // Convert op= operators to expressions containing an assignment.
